@@ -45,7 +45,7 @@ theorem phase_quiet (H : BurstObserved' pl body tail acq rel) (hok : PayloadOk p
       by_cases he : t < acq + 31
       · exact noHit_early N t he htb
       · refine Or.inr (Or.inr ?_)
-        rw [err_body H c s1 t (by omega) htb]
+        rw [err_body H.tracked c s1 t (by omega) htb]
         have := werr_preamble_misaligned pl t (by omega) (by omega) (hmis t (by omega) (by omega))
         omega
     obtain ⟨o1, o2, o3, o4, _⟩ := lstep_quiet c _ _ ((body ++ tail)[t]).2 hns i1 i3 hno
@@ -72,7 +72,7 @@ theorem phase_sync (H : BurstObserved' pl body tail acq rel) (hok : PayloadOk pl
   have hns : 31 ≤ (lrunState c s1 ((body ++ tail).take j0)).nsym := by
     rw [nsym_run]; have := hq.warm; omega
   have herr : errOf (lrunState c s1 ((body ++ tail).take j0)) ((body ++ tail)[j0]).1 ≤ c.maxErrors := by
-    rw [err_body H c s1 j0 hj0a htb, werr_preamble_aligned pl j0 (by omega) hj0 hj07]
+    rw [err_body H.tracked c s1 j0 hj0a htb, werr_preamble_aligned pl j0 (by omega) hj0 hj07]
     omega
   obtain ⟨o1, o2, o3, o4, o5, _⟩ := lstep_sync c _ _ ((body ++ tail)[j0]).2 hns i1 i2 i3
     (open_body H j0 hj0a htb) herr (by omega)
@@ -116,7 +116,7 @@ theorem phase_synced (H : BurstObserved' pl body tail acq rel) (hok : PayloadOk 
     have htx : 8 * q0 + 8 + d < (body ++ tail).length := by rw [List.length_append]; omega
     have hns : 31 ≤ (lrunState c s1 ((body ++ tail).take (8 * q0 + 8 + d))).nsym := by
       rw [nsym_run]; have := hq.warm; omega
-    have hhead := head_true H c s1 (8 * q0 + 8 + d) (by omega) (by omega) htx
+    have hhead := head_true H.tracked c s1 (8 * q0 + 8 + d) (by omega) (by omega) htx
     rw [show 8 * q0 + 8 + (d + 1) = 8 * q0 + 8 + d + 1 by omega,
       lrunState_take_succ c s1 _ _ htx, lrunBursts_take_succ c s1 _ _ htx]
     by_cases hbt : d % 8 = 7
@@ -136,7 +136,7 @@ theorem phase_synced (H : BurstObserved' pl body tail acq rel) (hok : PayloadOk 
         · rw [if_neg htr]
           have e : 8 * q0 + 8 + d = 8 * (q0 + (d / 8 + 1)) + 7 := by omega
           simp only [e]
-          rw [eq_byte H (q0 + (d / 8 + 1)) (by omega) (by omega) (by rw [← e]; exact htx)]
+          rw [eq_byte H.tracked (q0 + (d / 8 + 1)) (by omega) (by omega) (by rw [← e]; exact htx)]
           unfold byteAt
           congr 1
           omega
@@ -159,14 +159,14 @@ theorem phase_synced (H : BurstObserved' pl body tail acq rel) (hok : PayloadOk 
         · left; rw [i4]; simpa using hl
         · by_cases hb : 8 * q0 + 8 + d < body.length
           · refine Or.inr (Or.inr ?_)
-            rw [err_body H c s1 _ (by omega) hb]
+            rw [err_body H.tracked c s1 _ (by omega) hb]
             by_cases hpre : 8 * q0 + 8 + d ≤ 126
             · have := werr_preamble_misaligned pl (8 * q0 + 8 + d) (by omega) hpre (by omega)
               omega
             · have := werr_payload_misaligned pl hok hdash (8 * q0 + 8 + d) (by omega) (by omega)
                 (by omega) (by omega)
               omega
-          · exact noHit_tail N _ (by omega) htx
+          · exact noHit_tail N.late _ (by omega) htx
       obtain ⟨o1, o2, o3, o4, o5⟩ := lstep_tick c _ _ ((body ++ tail)[8 * q0 + 8 + d]).2 (d % 8 + 1) hns
         (by rw [i1, hk]) (by omega) hno hhead
       have em : (d + 1) / 8 = d / 8 := by omega
@@ -190,9 +190,9 @@ def GarbageInv (c : LCfg) (s1 : LState) (xs : List Tick) (pl : List Byte) (n rel
 
 /-- phase 4: after the last payload byte the framer reads garbage until it gives up or the power
     history empties; exactly one burst `payload ++ g` comes out -/
-theorem phase_garbage (H : BurstObserved' pl body tail acq rel) (hok : PayloadOk pl)
-    (c : LCfg) (s1 : LState) (hq : Quiescent s1)
-    (N : BTNoHit c s1 body tail acq)
+theorem phase_garbage (H : BurstTracked pl body tail acq rel) (hok : PayloadOk pl)
+    (c : LCfg) (s1 : LState) (hw : 32 ≤ s1.nsym)
+    (N : ∀ t, body.length ≤ t → NoHitAt c s1 (body ++ tail) t)
     (hbase : (lrunState c s1 ((body ++ tail).take (body.length + 31))).clock = some 0
       ∧ (lrunState c s1 ((body ++ tail).take (body.length + 31))).lock = true
       ∧ (lrunState c s1 ((body ++ tail).take (body.length + 31))).train = 0
@@ -215,7 +215,7 @@ theorem phase_garbage (H : BurstObserved' pl body tail acq rel) (hok : PayloadOk
     intro he
     have htx : body.length + (31 + e) < (body ++ tail).length := by rw [List.length_append]; omega
     have hns : 31 ≤ (lrunState c s1 ((body ++ tail).take (body.length + (31 + e)))).nsym := by
-      rw [nsym_run]; have := hq.warm; omega
+      rw [nsym_run]; omega
     unfold GarbageInv
     rw [show body.length + (31 + (e + 1)) = body.length + (31 + e) + 1 by omega,
       lrunState_take_succ c s1 _ _ htx, lrunBursts_take_succ c s1 _ _ htx]
